@@ -381,7 +381,7 @@ def run_check(prop, tier, seed):
             rr = run_shard(variant, binary, path, [*a, "--wal", "--loud"], timeout)
             ops = [l for l in rr["err"].splitlines() if l.startswith("op ")]
             last = ops[-1] if ops else "(outside any operation)"
-            msgs = [l for l in rr["err"].splitlines() if "panic" in l or "precondition" in l or "ERROR" in l or "error:" in l]
+            msgs = [l for l in rr["err"].splitlines() if not l.startswith("op ") and ("panicked at" in l or "precondition" in l or "ERROR" in l or "error:" in l or "assertion" in l)]
             if sig is None:
                 cause = msgs[0][:160] if msgs else f"rc={r['rc']}"
                 cause = re.sub(r"\d+", "#", cause)
